@@ -550,15 +550,40 @@ def check_row_index_semantic(ctx):
                 else:
                     unk.append(Unk('written value %s' % alg.show(v.poly, 80)))
         missing = [x for x in per_fit if x not in rows]
+        clean = not (isinstance(r, Unk) or unk or I.lost)
+        # each value under its own heading: the order in which the per-fit values first appear on a row against the order of the words of the heading line
+        order_vals = []
+        for w, c_ in h.sink.writes:
+            if isinstance(w, Fmt):
+                for v in w.values:
+                    if isinstance(v, Arr):
+                        for x in per_fit:
+                            if v.poly == sym(x, R_) and x not in order_vals:
+                                order_vals.append(x)
+        words = {'model_name': 'mname', 'chi2': 'chi2', 'av': 'av', 'scale': 'sc', 'sc': 'sc', 'p1': 'fp1'}
+        heading = []
+        for ln_ in ''.join(w for w, c_ in h.sink.writes if isinstance(w, str)).split('\n'):
+            toks = [words[t_] for t_ in ln_.lower().split() if t_ in words]
+            if 'chi2' in toks and 'av' in toks:
+                heading = [t_ for k_, t_ in enumerate(toks) if t_ not in toks[:k_]]
+                break
         if mixed:
             ctx.violation('PERM-8', inst, where(fi), 'a row of the listing mixes fits: alongside the values of fit r it prints %s' % '; '.join(mixed[:3]), 'row-index')
         elif partial:
             ctx.violation('PERM-8', inst, where(fi), 'rows are not written for every selected fit: %s' % '; '.join(partial[:3]), 'row-partial')
+        elif missing and clean:
+            # every write was followed: the value is not on the row
+            ctx.violation('PERM-8', inst, where(fi), 'the row of a fit never shows %s of that fit' % ', '.join({'mname': 'the model name', 'chi2': 'the chi^2', 'av': 'the A_V', 'sc': 'the scale', 'fp1': 'the parameter value'}[x] for x in missing), 'row-missing')
         elif isinstance(r, Unk) or unk or missing:
             ctx.undecided('PERM-8', inst, where(fi), 'listing not modelled: %s' % (r if isinstance(r, Unk) else (unk[0] if unk else 'no write of %s found' % missing)))
             decided = False
         else:
             ctx.ok('PERM-8', inst, where(fi), 'every per-fit value printed on the row of fit r is element r of its array (%s), for every selected fit' % ', '.join(sorted(rows)))
+            if heading and clean:
+                vals_ = [x for x in order_vals if x in heading]
+                ctx.expect(vals_ == [x for x in heading if x in vals_], 'PERM-8', '%s: chi^2, A_V, scale and the parameters under their own headings' % func, where(fi),
+                           'the values of a row come in the order of the heading line (%s)' % ', '.join(heading),
+                           'the heading line reads %s but the values of a row come in the order %s' % (heading, vals_), 'heading-order')
         if func == 'write_parameters' and not (isinstance(r, Unk) or unk):
             V = sym('valid', 'w')
             nd = alg.sum_over(alg.eq(V, 1), 'w') + alg.sum_over(alg.eq(V, 4), 'w')
